@@ -1,5 +1,6 @@
 """C18 -- internal buffers stay bounded over arbitrarily long sessions (structural form)."""
 import json
+import re
 import os
 from .lib import *
 from .cfg import cfg_of, callee_matches
@@ -216,10 +217,10 @@ def o3(W, ob):
                  'never removed and the queue grows without bound' % dnf_str([extra])[:200], where(d, t.line))
     for t in rm:
         v = key(cxd.expr_operand(t.args[1]))
-        ob.check('next_complete_outgoing_input_frame' in v, 'send_ready_outgoing_inputs_to_remotes|removes-sent', 'the frame that is sent is removed from the queue',
+        ob.check(re.match(r'^(?:\w+::)*next_complete_outgoing_input_frame\(self, (?:\w+::)*local_player_handles\(self\.player_reg\)\)\.Some\.0$', v) is not None, 'send_ready_outgoing_inputs_to_remotes|removes-sent', 'the frame that is sent is removed from the queue',
                  'remove(%s)' % v[:80], where(d, t.line))
     st = stores_in(W, d, 'last_sent_outgoing_input_frame')
-    ok = len(st) == 1 and 'next_complete_outgoing_input_frame' in key(cxd.expr_rvalue(st[0]['site'].rv))
+    ok = len(st) == 1 and re.match(r'^(?:\w+::)*next_complete_outgoing_input_frame\(self, (?:\w+::)*local_player_handles\(self\.player_reg\)\)\.Some\.0$', key(cxd.expr_rvalue(st[0]['site'].rv))) is not None
     ob.check(ok, 'send_ready_outgoing_inputs_to_remotes|cursor', 'the sent-cursor follows the frame just sent', 'last_sent_outgoing_input_frame is not set to the frame sent', where(d))
     # every announced frame is flushed (C11.O1b) -- and the lookup accepts exactly cursor+1 (or the first complete frame)
     n = W.fn(P2P + '::next_complete_outgoing_input_frame')
@@ -246,6 +247,8 @@ from . import initial
 
 from . import removals
 
+from . import mustcall
+
 OBLIGATIONS = [
     ('C18.O1', 'inventory', 'every growable collection field of the sessions / endpoint / sync layer is listed; every growth site found by the writer-set analysis is '
      'recorded with its bounding construct; fixed-size collections have no growth site outside constructors.', o1),
@@ -258,4 +261,5 @@ OBLIGATIONS = [
     ('C18.W', 'endpoint construction wiring', 'cap-then-disconnect bounds pending_output only if the session can stop the endpoint that reported Disconnected, which it does per handle of that endpoint: the handle list the builder collected for an address reaches UdpProtocol::new whole (no element-dropping operation on a collection forwarded under its own name), and no configuration wire is crossed; see rules/wiring.py', wiring.rule),
     ('C18.I', 'initial state', 'every constructor gives the fields this property\'s rules interpret (NULL_FRAME = none / nothing yet, 0 = first frame, latches open, typestate start) the value listed in tables/initial_state.json; every field compared with NULL_FRAME anywhere is listed; see rules/initial.py', initial.rule_for('C18')),
     ('C18.R', 'who may remove', 'every call that takes elements out of a collection this property\'s rules rely on (keyed removal from a map, or bulk / positional removal) is one of the reviewed sites in tables/removals.json; a lookup turned into a removal, a second prune, a clear on another path is reported; see rules/removals.py', removals.rule_for('C18')),
+    ('C18.M', 'must-call floor', 'the calls listed for this property in tables/must_call.json are made on every path from the entry of their function to a normal return (interprocedural must-call): a new early return, fast path or extra condition in front of one of them is reported; see rules/mustcall.py', mustcall.rule_for('C18')),
 ]
